@@ -163,6 +163,37 @@ func checkCanonical(k *K, s []byte, kk int) {
 			return
 		}
 	}
+	// Runs of ONE iterator value that overlap in time: inside the callback of an outer run (every third item) a
+	// complete inner run over the same value. The inner run must yield the same items, and the item the outer
+	// callback was handed must not change while that callback is still running.
+	if len(s) < 80 && (len(s)+kk)%3 == 0 {
+		oi := 0
+		for kmer := range theSeq {
+			if oi >= len(items) {
+				break
+			}
+			if oi%3 == 0 {
+				n2 := 0
+				for in := range theSeq {
+					if n2 >= len(items) || !bytes.Equal(in, items[n2]) {
+						k.Input("seq", s)
+						k.Input("k", kk)
+						k.Failf("canonical-nested", "CanonicalSubsequences(%.300q,%d): a run started inside the callback of another run over the same iterator value yields item %d = %.100q", s, kk, n2, in)
+						return
+					}
+					n2++
+				}
+			}
+			if !bytes.Equal(kmer, items[oi]) {
+				k.Input("seq", s)
+				k.Input("k", kk)
+				k.Failf("canonical-nested", "CanonicalSubsequences(%.300q,%d): item %d changed from %.100q to %.100q during its own callback (while another run over the same iterator value ran inside it)", s, kk, oi, items[oi], kmer)
+				return
+			}
+			oi++
+		}
+		k.Count("canonical_nested_runs", 1)
+	}
 	wantN := max(0, len(s)-kk+1)
 	if len(items) != wantN {
 		k.Input("seq", s)
@@ -219,10 +250,11 @@ func init() {
 			{Name: "exhaustive", QShards: 4, TShards: 10, Run: c12Exhaustive},
 			{Name: "random", TShards: 4, Run: c12Random},
 			{Name: "bytes", Run: c12Bytes},
-			{Name: "longcontext", QShards: 4, TShards: 10, Run: func(c *Ctx) {
+			{Name: "longcontext", QShards: 8, TShards: 12, Run: func(c *Ctx) {
 				longContextPanics(c, 0, "ACGTNacgtn", []byte{'U', 'R', '@', 0, 0xff, 0x80, 'B', 'M'}, map[string]func([]byte){
-					"ReverseComplement":       func(s []byte) { sequtil.ReverseComplement(nil, s) },
-					"ReverseComplementString": func(s []byte) { sequtil.ReverseComplementString(string(s)) },
+					"ReverseComplement":                           func(s []byte) { sequtil.ReverseComplement(nil, s) },
+					"ReverseComplement (dst with spare capacity)": func(s []byte) { sequtil.ReverseComplement(make([]byte, 3, 8+len(s)), s) },
+					"ReverseComplementString":                     func(s []byte) { sequtil.ReverseComplementString(string(s)) },
 					"CanonicalSubsequences": func(s []byte) {
 						for range sequtil.CanonicalSubsequences(s, 5) {
 						}
@@ -235,6 +267,7 @@ func init() {
 			firstCallUnit(firstSequtilRC),
 			firstParallelUnit(parSequtilRC),
 			reuseUnit(reuseRC),
+			roundLensUnit(reuseRC[:2]),
 		},
 	})
 }
